@@ -119,6 +119,52 @@ Proof.
   apply in_seq in Hk. change (Z.to_nat (s2_MaxLevel + 1 - 0)) with 31%nat in Hk. lia.
 Qed.
 
+(** the tie rule of Polygon.encode: the snap level is the LEAST level with the maximal number of
+    cell-centre vertices (the histogram is scanned from level 0 upwards with a strict comparison) *)
+Lemma zrange_up_succ n : zrange_up 0 (Z.of_nat (S n)) = zrange_up 0 (Z.of_nat n) ++ [Z.of_nat n].
+Proof.
+  unfold zrange_up. rewrite !Z.sub_0_r, !Nat2Z.id. rewrite seq_S, map_app. reflexivity.
+Qed.
+
+Definition snap_inv (ls : list Z) (k : Z) (best : Z * Z) : Prop :=
+  let '(b, h) := best in
+  0 <= h /\ (forall l, 0 <= l < k -> count_level l ls <= h) /\ (h = 0 -> b = 0)
+  /\ (0 < h -> 0 <= b < k /\ count_level b ls = h /\ forall l, 0 <= l < b -> count_level l ls < h).
+
+Lemma snap_fold_inv ls n :
+  snap_inv ls (Z.of_nat n)
+    (fold_left (fun (best : Z * Z) lv => let h := count_level lv ls in if snd best <? h then (lv, h) else best)
+               (zrange_up 0 (Z.of_nat n)) (0, 0)).
+Proof.
+  induction n as [|n IH].
+  - cbn. repeat split; try lia.
+  - rewrite zrange_up_succ, fold_left_app. cbn [fold_left].
+    destruct (fold_left _ (zrange_up 0 (Z.of_nat n)) (0, 0)) as [b h]. cbn [snd] in *.
+    destruct IH as (H0 & Hall & Hz & Hpos). rewrite Nat2Z.inj_succ.
+    assert (Hc : 0 <= count_level (Z.of_nat n) ls) by (unfold count_level, len; lia).
+    cbv zeta. destruct (h <? count_level (Z.of_nat n) ls) eqn:E.
+    + apply Z.ltb_lt in E. unfold snap_inv. split; [lia|]. split; [|split; [lia|]].
+      * intros l Hl. destruct (Z.eq_dec l (Z.of_nat n)) as [->|Hne]; [lia|]. specialize (Hall l ltac:(lia)). lia.
+      * intros _. split; [lia|]. split; [reflexivity|]. intros l Hl. specialize (Hall l ltac:(lia)). lia.
+    + apply Z.ltb_ge in E. unfold snap_inv. split; [lia|]. split; [|split; [exact Hz|]].
+      * intros l Hl. destruct (Z.eq_dec l (Z.of_nat n)) as [->|Hne]; [lia|]. apply Hall. lia.
+      * intros Hh. destruct (Hpos Hh) as (Hb & Hcb & Hlt). split; [lia|]. split; auto.
+Qed.
+
+Theorem snap_choice_least_max ls :
+  let '(lv, h) := snap_choice ls in
+  0 <= lv <= 30 /\ (forall l, 0 <= l <= 30 -> count_level l ls <= h)
+  /\ (0 < h -> count_level lv ls = h /\ forall l, 0 <= l < lv -> count_level l ls < h).
+Proof.
+  unfold snap_choice. pose proof (snap_fold_inv ls 31) as I.
+  change (Z.of_nat 31) with 31 in I. change (s2_MaxLevel + 1) with 31.
+  destruct (fold_left _ (zrange_up 0 31) (0, 0)) as [lv h]. destruct I as (H0 & Hall & Hz & Hpos).
+  split; [|split].
+  - destruct (Z.eq_dec h 0) as [E|E]; [rewrite (Hz E); lia|]. destruct (Hpos ltac:(lia)) as (Hb & _). lia.
+  - intros l Hl. apply Hall. lia.
+  - intros Hh. destruct (Hpos Hh) as (_ & Hc & Hlt). split; auto.
+Qed.
+
 (** a polygon both formats can carry *)
 Definition polygon_enc_ok (p : polygon) : Prop := polygon_ok p.
 
